@@ -284,6 +284,7 @@ class View:
         self.over = {}        # canonical (local, projs) -> interval
         self.nonempty = set()  # canonical places known to be non-empty collections/strings
         self.memo = {}
+        self.unreachable = False
         if bid is not None:
             self._refine_from_dominators()
 
@@ -372,6 +373,8 @@ class View:
             if (lo, hi) != ix:
                 self.over[c] = (lo, hi)
                 self.memo = {}
+                if lo > hi:
+                    self.unreachable = True       # the dominating conditions contradict each other
 
     # ----- evaluation
     def of_op(self, o, depth=8):
@@ -948,6 +951,8 @@ def auto_discharge(F, site, iv=None):
     fn = site.fn
     iv = iv or Intervals(F, fn)
     V = iv.view(site.bid)
+    if getattr(V, 'unreachable', False):
+        return 'D9: the conditions that dominate this site contradict each other (an integer would have to lie in an empty interval): the site is unreachable'
 
     def opty(o):
         return strip_lt(o.get('ty') or o.get('pl', {}).get('ty', '')).lstrip('&')
